@@ -24,7 +24,12 @@ PARTIAL = {"WM.C18.mp": "stated for the sub-writers every sub-process produces (
                            "timing is not modelled"}
 RULE = ("one world x {FileStorage mmap on/off, RamStorage, copy_to_ram} x {compound, loose} x {plain SegmentWriter, "
         "MpWriter procs 1..3 x batch sizes x merged/multisegment, SerialMpWriter, AsyncWriter with/without a decoy lock "
-        "holder, BufferedWriter limit 1..5 probed through its own searcher after every call}; every configuration's "
+        "holder or behind a plain writer that holds the lock, performs the previous session and commits while the "
+        "AsyncWriter's calls wait (every 8th world is built for this: the holder adds documents with the term the "
+        "AsyncWriter deletes by, or deletes and merges), BufferedWriter limit 1..5 probed through its own searcher after "
+        "every call, including Prefix/TermRange/Wildcard queries and expand_prefix/terms_from walks that start at a "
+        "bound (bounds that are terms of buffered documents are counted)}; schemas include a pure COLUMN field and a "
+        "dynamic (glob) field (per-document data without postings / without stored values); every configuration's "
         "canonical dump is compared with the Lean dictionary and pairwise with the plain FileStorage run; non-trivial = "
         "a non-plain front-end committed documents; distinct = distinct (world, configuration); plus 2 (quick) / 8 MpWriter "
         "runs in which one document kills a sub-process (must be reported, never committed around)")
@@ -75,7 +80,9 @@ def _configs(rng, tier):
             c.update(procs=rng.choice([1, 2, 3]))
         if fe == "async":
             # per session: no other writer / one that leaves after commit() was called / one that leaves before
-            c.update(decoy=[rng.choice([False, "late", "late", "early", "early"]) for _ in range(5)], storage="file")
+            # / "writer": the session before is performed by a plain writer holding the lock meanwhile
+            c.update(decoy=[rng.choice([False, "late", "late", "early", "early", "writer", "writer"]) for _ in range(5)],
+                     storage="file")
         c["limitmb"] = rng.choice([128, 128, 0.0004, 0.002, 0.01])
         cfgs.append(c)
     return cfgs
@@ -87,6 +94,13 @@ def _world(seed_tuple):
         return rec["world"], rec["cfgs"], rec.get("limit", 3)
     pid, seed, tier, i = seed_tuple
     rng = random.Random("%s:%s:world:%d" % (pid, seed, i))
+    if i % 8 == 5:
+        # a deferred AsyncWriter behind a lock holder that commits (compared with the plain run of the same sessions)
+        w = io.gen_async_world(rng)
+        base = io.default_config()
+        c = dict(base, frontend="async", storage="file", compound=rng.random() < 0.6, blocklimit=rng.choice([2, 128]),
+                 decoy=["writer"])
+        return w, [dict(base), c], rng.choice([1, 2, 3, 5])
     w = io.gen_world(rng, disciplined=True, schema_changes=rng.random() < 0.4, raw_docnums=False, groups=rng.random() < 0.6,
                      nsessions=rng.choice([1, 2, 3, 4]), maxops=rng.choice([3, 5, 8]), allow_clear=True, malformed=False)
     return w, _configs(rng, tier), rng.choice([1, 2, 3, 5])
@@ -209,6 +223,8 @@ def check_frontend_run(ctx, run, reply, ref):
         exp = io.expected_dump(tables, ms["spec"])
         c07._against_spec(ctx, dict(where, frontend=fe), tables, ms["spec"], exp, d)
         c07._reader_consistency(ctx, dict(where, frontend=fe), tables, d)
+        c07.optimize_purges(ctx, dict(where, frontend=fe), rs["end"], d,
+                            single=not (fe == "mp" and cfg.get("multisegment")))
         if fe in ("plain", "async") and [tuple(x) for x in d["layout"]] != [tuple(x) for x in ms["toc"]]:
             # (an AsyncWriter is a plain writer as soon as it has the lock: same layout, same merge decisions)
             ctx.divergence("segment-layout:%s" % fe, where, ms["toc"], d["layout"])
@@ -237,6 +253,8 @@ def check_frontend_run(ctx, run, reply, ref):
             ctx.stat("mp:procs=%d,multiseg=%s" % (cfg["procs"], cfg["multisegment"]))
         if rs.get("async_buffered"):
             ctx.stat("async:buffered-session")
+        if rs.get("behind_writer"):
+            ctx.stat("async:deferred-behind-a-committing-writer")
         ctx.stat("storage:%s%s%s" % (cfg["storage"], "" if cfg.get("mmap", True) else "-nommap",
                                       "-copy_to_ram" if cfg.get("copy_to_ram") else ""))
 
@@ -307,6 +325,10 @@ def check_buffered_model(ctx, case, reply):
     ctx.stat("buffered:model-checked")
 
 
+SIG_MEMWALK = ("MemTermsReader.terms_from:TermNotFound('Unknown field') for a schema field without a term in the RAM "
+               "segment (reader.expand_prefix/terms_from of BufferedWriter.reader())")
+
+
 def check_buffered(ctx, case, reply):
     b = case["buffered"]
     real = b["real"]
@@ -325,6 +347,47 @@ def check_buffered(ctx, case, reply):
             ctx.violation("BufferedWriter.searcher:doc_count", dict(where, step=si, op=st["op"]), len(exp), st["doc_count"],
                           "doc_count of the buffered writer's reader")
             return
+        # term expansions that start at a bound, through the writer's own searcher (RAM segment + disk)
+        for (kind, f, bd), got in sorted(st.get("expansions", {}).items()):
+            w2 = dict(where, step=si, op=st["op"], field=f, bound=bd)
+            if kind == "raised":
+                ctx.violation("BufferedWriter.searcher:expansion raised", w2, "no exception", got,
+                              "a prefix/range expansion through the buffered writer's searcher raised")
+                return
+            if kind == "walk-raised":
+                # classified: the field is in the schema but no buffered document has a term in it, and the
+                # RAM segment's MemTermsReader.terms_from raises instead of yielding nothing (a disk segment yields nothing)
+                nobuf = got.startswith("TermNotFound: Unknown field")
+                ctx.violation(SIG_MEMWALK if nobuf else "BufferedWriter.reader:lexicon walk raised", w2, "no exception", got,
+                              "reader.expand_prefix/terms_from through the buffered writer's reader raised")
+                if nobuf:
+                    continue
+                return
+            if kind in ("expand_prefix", "terms_from"):
+                bb = bd.encode("utf8")
+                need = set()
+                for key, fids in ms["spec"]:
+                    fr = tables.recs[key].get(f)
+                    if fr is not None and io.FID[f] in fids:
+                        need.update(tb for tb, _, _ in fr["toks"]
+                                    if (tb.startswith(bb) if kind == "expand_prefix" else tb >= bb))
+                full = kind == "expand_prefix" or len(got) < 40
+                if got != sorted(set(got)) or (full and not need <= set(got)) or any(
+                        not (t.startswith(bb) if kind == "expand_prefix" else t >= bb) for t in got):
+                    ctx.violation("BufferedWriter.reader:%s misses a live term / unsorted / out of range" % kind, w2,
+                                  sorted(need), got, "the lexicon walk from a bound through the buffered writer's reader")
+                    return
+                ctx.stat("buffered:expansion:%s" % kind)
+                continue
+            want = io.expected_expansion(tables, ms["spec"], kind, f, bd)
+            if got != want:
+                ctx.violation("BufferedWriter.searcher:%s-from-bound!=committed+buffered" % kind, w2, want, got,
+                              "a prefix/range/wildcard query through the buffered writer's own searcher does not match "
+                              "exactly the committed + buffered documents with a term in the expansion")
+                return
+            ctx.stat("buffered:expansion:%s:%s" % (kind, "bound-is-live-term" if any(
+                bd.encode("utf8") == tb for key, fids in ms["spec"] for tb, _, _ in
+                (tables.recs[key].get(f) or {"toks": []})["toks"]) else "bound-not-a-term"))
     if reply:
         ms = reply[-1]
         if "error" not in ms:
@@ -335,7 +398,7 @@ def check_buffered(ctx, case, reply):
 
 
 def run(ctx):
-    n = ctx.budget(250, 2000)
+    n = ctx.budget(220, 2000)
     corpus = io.corpus_items(ID)
     ctx.stat("corpus-cases", len(corpus))
     seeds = corpus + [(ID, ctx.seed, ctx.tier, i) for i in range(n)]
